@@ -31,7 +31,7 @@ def run(ctx) -> None:
     from ._parser import instr_patterns, operands_from_operand_group, split_rule
     Ip = make_interp(ctx.p)
     split_rule(ctx, "C06.D1.memory-operand-reaches-normaliser-whole", Ip)
-    _paths, _sites, _pats = instr_patterns(Ip)
+    _paths, _sites, _pats = instr_patterns(Ip, ctx)
     operands_from_operand_group(ctx, "C06.D1.operands-only-from-operand-group", Ip, _sites)
     # D3: end to end on token templates: compiled $deref regex vs the normaliser's output, all presence patterns and spellings
     from ..shapes import deref_end_to_end
